@@ -200,7 +200,14 @@ def run_base32(ctx, B):
             b32_decode_case(ctx, B, e, "valid")
             if n == 5 and j == 0:
                 ctx.sample({"codec": "base32", "input": x.hex(), "encoded": e.decode()})
-    nm = ctx.n(320, 6000)
+    for i, e in enumerate(valid):
+        if e and (i % 2 == 0 or ctx.tier == "thorough"):
+            b32_decode_case(ctx, B, e[:-1], "prefix-last-byte")
+    for i in range(ctx.n(3, 40)):
+        e = ctx.rng("b32p", i).choice([v for v in valid if 8 <= len(v) <= 40])
+        for cut in range(len(e)):
+            b32_decode_case(ctx, B, e[:cut], "prefix")
+    nm = ctx.n(260, 6000)
     for i in range(nm):
         r = ctx.rng("b32m", i)
         kind, s = mutate(r, r.choice(valid), B32)
@@ -278,6 +285,13 @@ def run_base62(ctx, B):
             b62_decode_case(ctx, B, e, "valid")
             if n == 5 and j == 0:
                 ctx.sample({"codec": "base62", "input": x.hex(), "encoded": e.decode()})
+    for i, e in enumerate(valid):
+        if i % 2 == 1 or ctx.tier == "thorough":
+            b62_decode_case(ctx, B, e[:-1], "prefix-last-byte")
+    for i in range(ctx.n(2, 30)):
+        e = ctx.rng("b62p", i).choice([v for v in valid if 6 <= len(v) <= 40])
+        for cut in range(len(e)):
+            b62_decode_case(ctx, B, e[:cut], "prefix")
     nm = ctx.n(260, 5000)
     for i in range(nm):
         r = ctx.rng("b62m", i)
@@ -351,7 +365,7 @@ def ns_classify(data, numstrings):
     return "netstring-split-noncanonical-other"
 
 
-def ns_case(ctx, B, data, n, pos, trailer, kind):
+def ns_case(ctx, B, data, n, pos, trailer, kind, must_reject=False):
     from allmydata.util.netstring import netstring, split_netstring
     res = ns_result(lambda: split_netstring(data, n, pos, trailer))
     case = {"codec": "netstring", "op": "split", "input": data.hex(), "numstrings": n, "position": pos,
@@ -360,17 +374,37 @@ def ns_case(ctx, B, data, n, pos, trailer, kind):
         ctx.mismatch("netstring-error-class", "split_netstring raised %s" % res[1], case=case, observed=res[1], correspondence="netstring")
         return
     ctx.case(("ns", data, n, pos, trailer) if res[0] == "ok" else None, kind="netstring-" + kind)
-    if res[0] == "ok" and pos == 0 and trailer == b"":
+    if res[0] == "ok" and must_reject:
+        ctx.oracle_fail("netstring-split-accepts-truncated", "split_netstring(%r, %d, required_trailer=%r) accepted a strict prefix of a valid encoding of %d strings: %r" % (data, n, trailer, n, res),
+                        case=case, expected="rejection", observed=repr(res))
+    elif res[0] == "ok" and pos == 0:
+        # accepted: the consumed bytes must be exactly the encoding of the returned elements
         back = b"".join(netstring(e) for e in res[1])
-        if back != data:
-            ctx.oracle_fail(ns_classify(data, n), "split_netstring(%r, %d, required_trailer=b'') = %r but re-encoding gives %r" % (data, n, res[1], back),
-                            case=case, expected="rejection (or the canonical encoding)", observed={"elements": [e.hex() for e in res[1]], "reencoded": back.hex()})
+        consumed = res[2] - (len(trailer) if trailer is not None else 0)
+        if consumed > len(data) or back != data[:consumed] or (trailer is not None and data[consumed:] != trailer):
+            if len(back) > len(data) and back.startswith(data) or consumed > len(data):
+                k = "netstring-split-accepts-truncated"
+            else:
+                k = ns_classify(data, n)
+            ctx.oracle_fail(k, "split_netstring(%r, %d, required_trailer=%r) = (%r, %d) but the encoding of those elements is %r" % (data, n, trailer, res[1], res[2], back),
+                            case=case, expected="rejection (or exactly the canonical encoding consumed)",
+                            observed={"elements": [e.hex() for e in res[1]], "position": res[2], "reencoded": back.hex()})
     B.add(ns_term(data, n, pos, trailer, res), "netstring", "split_netstring(%r, %d, %d, %r)" % (data, n, pos, trailer), case, repr(res))
 
 
 def run_netstring(ctx, B):
     from allmydata.util.netstring import netstring, split_netstring
     ctx.correspondence("netstring")
+    # every strict prefix of a valid encoding of 1..4 strings is rejected (netstring_unique_decomposition)
+    for i in range(ctx.n(4, 120)):
+        r = ctx.rng("nsp", i)
+        k = 1 + i % 4
+        els = [content(r, r.choice([0, 1, 2, 3, 9, 10, 11])) if r.randrange(2) else bytes(r.choice(b"0123456789:,") for _ in range(r.randrange(0, 6))) for _ in range(k)]
+        data = b"".join(netstring(e) for e in els)
+        for cut in range(len(data)):
+            ns_case(ctx, B, data[:cut], k, 0, None if (cut + i) % 2 else b"", "prefix", must_reject=True)
+            if ctx.tier == "thorough" or ctx.search:
+                ns_case(ctx, B, data[:cut], k, 0, b"" if (cut + i) % 2 else None, "prefix", must_reject=True)
     nv = ctx.n(140, 3000)
     valid = []
     for i in range(nv):
@@ -393,6 +427,11 @@ def run_netstring(ctx, B):
             ctx.oracle_fail("netstring-roundtrip", "split_netstring(concatenated netstrings of %d strings, %d, required_trailer=b'') != the strings" % (k, k),
                             case={"codec": "netstring", "op": "roundtrip", "elements": [e.hex() for e in els]}, expected=[e.hex() for e in els], observed=repr(res))
         ns_case(ctx, B, data, k, 0, b"", "valid")
+        if 1 <= k <= 4:
+            # the encoding short of its final byte (the last comma) must be rejected, with and without a required trailer
+            ns_case(ctx, B, data[:-1], k, 0, None, "prefix-last-byte", must_reject=True)
+            if i % 4 == 1:
+                ns_case(ctx, B, data[:-1], k, 0, b"", "prefix-last-byte", must_reject=True)
         if i < 3:
             ctx.sample({"codec": "netstring", "elements": [e.hex() for e in els], "encoded": data.hex()})
         # other call shapes on the same data: wrong counts, offsets, trailers
@@ -406,7 +445,7 @@ def run_netstring(ctx, B):
             ns_case(ctx, B, data, k, r.randrange(0, len(data) + 2), None, "position")
         elif shape == 3:
             ns_case(ctx, B, data, 0, 0, None, "count-zero")
-    nm = ctx.n(300, 6000)
+    nm = ctx.n(260, 6000)
     numerals = [b"+", b"0", b" ", b"\t", b"_", b"-", b"00"]
     for i in range(nm):
         r = ctx.rng("nsm", i)
@@ -486,7 +525,7 @@ def ueb_dict_term(d):
     return T.lst(items)
 
 
-def ueb_decode_case(ctx, B, s, kind):
+def ueb_decode_case(ctx, B, s, kind, truncated=False):
     from allmydata import uri
     case = {"codec": "ueb", "op": "unpack", "input": s.hex(), "mutation": kind}
     try:
@@ -504,7 +543,10 @@ def ueb_decode_case(ctx, B, s, kind):
         except Exception as e:
             back = ("raised", type(e).__name__)
         if back != s:
-            ctx.oracle_fail(ueb_classify(s), "unpack_extension(%r) = %r but pack_extension of that gives %r" % (s, res[1], back),
+            k = ueb_classify(s)
+            if truncated and k == "ueb-unpack-noncanonical-other":
+                k = "ueb-unpack-accepts-truncated"
+            ctx.oracle_fail(k, "unpack_extension(%r) = %r but pack_extension of that gives %r" % (s, res[1], back),
                             case=case, expected="rejection (or the canonical encoding)", observed={"decoded": repr(res[1]), "reencoded": repr(back)})
         exp = "(Ok %s)" % ueb_dict_term(res[1])
     else:
@@ -540,6 +582,12 @@ def run_ueb(ctx, B):
         valid.append(s)
         ctx.case(("ueb-pack", s), kind="ueb-pack")
         B.add("opt_bytes_eqb (ueb_pack %s) (Some %s)" % (ueb_dict_term(d), T.bytes_(s)), "ueb", "pack_extension", case, s.hex())
+        # the encoding is a function of the dict, not of its insertion order (its hash is part of the cap)
+        items = list(d.items())
+        r.shuffle(items)
+        if uri.pack_extension(dict(items)) != s or uri.pack_extension(dict(reversed(list(d.items())))) != s:
+            ctx.oracle_fail("ueb-pack-depends-on-dict-order", "pack_extension gives different bytes for the same dict built in another order",
+                            case=case, expected=s.hex(), observed=uri.pack_extension(dict(items)).hex())
         try:
             d2 = uri.unpack_extension(s)
         except Exception as e:
@@ -547,6 +595,12 @@ def run_ueb(ctx, B):
         if d2 != d:
             ctx.oracle_fail("ueb-roundtrip", "unpack_extension(pack_extension(d)) != d", case=case, expected=repr(d), observed=repr(d2))
         ueb_decode_case(ctx, B, s, "valid")
+        if s and (i % 2 == 0 or ctx.tier == "thorough" or ctx.search):
+            ueb_decode_case(ctx, B, s[:-1], "prefix-last-byte", truncated=True)
+        if i < ctx.n(4, 60) and 0 < len(s) < 400 and i % 2:
+            # every strict prefix: accepted only where it is itself a canonical block (i.e. at an entry boundary)
+            for cut in range(len(s)) if len(s) <= 40 else sorted(set(r.randrange(len(s)) for _ in range(40))):
+                ueb_decode_case(ctx, B, s[:cut], "prefix", truncated=True)
         if i < 2:
             ctx.sample({"codec": "ueb", "dict": case["dict"], "encoded": s.hex()})
     # pack on keys the regex rejects / values of the other kind (model vs implementation only)
@@ -565,7 +619,7 @@ def run_ueb(ctx, B):
         ctx.case(("ueb-pack1", k, v) if s is not None else None, kind="ueb-pack-odd")
         B.add("opt_bytes_eqb (ueb_pack %s) %s" % (ueb_dict_term(d), opt_bytes(s)), "ueb", "pack_extension({%r: %r})" % (k, v),
               {"codec": "ueb", "op": "pack", "key": repr(k), "value": repr(v)}, None if s is None else s.hex())
-    nm = ctx.n(320, 7000)
+    nm = ctx.n(280, 7000)
     for i in range(nm):
         r = ctx.rng("uebm", i)
         s = r.choice(valid)
@@ -677,6 +731,21 @@ def run_lease(ctx, B):
                 ctx.oracle_fail("lease-serializer-v2", "the v2 (hashed) lease serializer does not round-trip", case=case)
             B.add("opt_list_eqb (%s %s) %s" % (fn, lease_term(owner, hr, hc, exp, nodeid), opt_bytes(ser2.serialize(li))), "lease-records",
                   "v2 lease serializer output", case, ser2.serialize(li).hex())
+        if data is not None:
+            for wrong, wk in (((data[:-1], "short"), (data + b"\x00", "long"), (data[1:], "short-front")) if (ctx.tier == "thorough" or ctx.search) else ((data[:-1], "short"), (data + b"\x00", "long"))[i % 2:][:1] if i % 2 == 0 or i % 3 == 0 else ()):
+                try:
+                    lw = LeaseInfo.from_mutable_data(wrong) if mutable else LeaseInfo.from_immutable_data(wrong)
+                    gotw = lease_of(lw)
+                except struct.error:
+                    gotw = None
+                ctx.case(None, kind="lease-record-" + wk)
+                wcase = {"codec": case["codec"], "op": "decode", "input": wrong.hex(), "mutation": wk}
+                if gotw is not None:
+                    ctx.oracle_fail("lease-record-accepts-wrong-size", "a %d-byte lease record (valid record, one byte %s) was decoded" % (len(wrong), wk), case=wcase,
+                                    expected="struct.error", observed=repr(gotw))
+                B.add("opt_lease_eqb (%s %s) %s" % ("lease_from_mutable" if mutable else "lease_from_immutable", T.bytes_(wrong),
+                                                     "None" if gotw is None else "(Some %s)" % lease_term(*gotw)), "lease-records",
+                      "LeaseInfo.from_*_data of a record one byte %s" % wk, wcase, repr(gotw))
         # decoding arbitrary records of the right and wrong sizes
         size = 92 if mutable else 72
         ln = r.choice([size, size, size, size - 1, size + 1, 0])
@@ -879,6 +948,34 @@ def run_headers(ctx, B):
         if len(badh) == 100:
             exp = "None" if res is None else "(Some (mk_mut_hdr %s %s %s %s %s))" % (T.N(res[0]), T.bytes_(res[1]), T.bytes_(res[2]), T.N(res[3]), T.N(res[4]))
             B.add("opt_mut_hdr_eqb (mut_header_parse %s) %s" % (T.bytes_(badh), exp), "container-headers", "parse of a corrupted mutable header", bcase, repr(res))
+        # a container file cut inside its header (in particular one byte short of it) must not be read as a container
+        for cut in ((99, r.randrange(32, 99), 11) if (ctx.tier == "thorough" or ctx.search) else (99, 11) if i % 2 == 0 else ()):
+            for codec, whole, hsize in (("mutable-header", raw, 100), ("immutable-header", ischemas[v].header(7) + b"payload", 12)):
+                if cut >= hsize:
+                    continue
+                fnt = fn + "-cut"
+                with open(fnt, "wb") as f:
+                    f.write(whole[:cut])
+                try:
+                    if codec == "mutable-header":
+                        mt = MutableShareFile(fnt)
+                        with open(fnt, "rb") as f:
+                            twe, tnid = mt._read_write_enabler_and_nodeid(f)
+                            tres = (mt._schema.version, tnid, twe, mt._read_data_length(f), mt._read_extra_lease_offset(f))
+                    else:
+                        st = ShareFile(fnt)
+                        tres = (st._schema.version, st._num_leases)
+                except (UnknownMutableContainerVersionError, UnknownImmutableContainerVersionError, struct.error):
+                    tres = None
+                tcase = {"codec": codec, "op": "parse", "input": whole[:cut].hex(), "mutation": "truncated-to-%d" % cut}
+                ctx.case(None, kind=codec + "-truncated")
+                if tres is not None:
+                    ctx.oracle_fail(codec + "-accepts-truncated", "a container file cut to %d bytes (header size %d) was opened and its header fields read: %r" % (cut, hsize, tres),
+                                    case=tcase, expected="rejection", observed=repr(tres))
+                if codec == "mutable-header":
+                    B.add("opt_mut_hdr_eqb (mut_header_parse %s) None" % T.bytes_(whole[:cut]), "container-headers", "mutable header cut to %d bytes" % cut, tcase, repr(tres))
+                else:
+                    B.add("opt_triple_eqb (imm_header_parse %s) None" % T.bytes_(whole[:cut]), "container-headers", "immutable header cut to %d bytes" % cut, tcase, repr(tres))
         if i < 1:
             ctx.sample({"codec": "mutable-header", "version": mv, "header": raw[:100].hex()})
 
